@@ -277,6 +277,24 @@ theorem cutAtStop_length_le (hashOf : Src H → H) (stop : H) : ∀ (l : List (S
         have := ih j' y h hy
         simp only [List.length_cons]; omega
 
+theorem cutAtStop_cases (hashOf : Src H → H) (stop : H) : ∀ l : List (Src H),
+    cutAtStop hashOf stop l = l ∨ ∃ y, (cutAtStop hashOf stop l).getLast? = some y ∧ hashOf y = stop := by
+  intro l
+  induction l with
+  | nil => exact Or.inl rfl
+  | cons x xs ih =>
+    unfold cutAtStop
+    by_cases h : hashOf x = stop
+    · rw [if_pos h]; exact Or.inr ⟨x, rfl, h⟩
+    · rw [if_neg h]
+      rcases ih with e | ⟨y, hy, hh⟩
+      · rw [e]; exact Or.inl rfl
+      · right
+        refine ⟨y, ?_, hh⟩
+        have hne : cutAtStop hashOf stop xs ≠ [] := by
+          intro e; rw [e] at hy; cases hy
+        rw [List.getLast?_cons_of_ne_nil hne]; exact hy
+
 theorem take_prefix {α : Type} (n : Nat) (l : List α) : ∃ R, l = l.take n ++ R := ⟨l.drop n, (List.take_append_drop n l).symm⟩
 
 /-- in a list with distinct images the first index with a given image is THE index -/
@@ -304,6 +322,15 @@ theorem findIdx?_of_nodup {α : Type} (f : α → H) : ∀ (l : List α) (i : Na
       simp only [hne, decide_false, Bool.false_eq_true, if_false]
       rw [ih i' a hn.2 h]
       rfl
+
+/-- in a list with distinct images, equal images sit at equal positions -/
+theorem index_unique {α : Type} (f : α → H) (l : List α) (i j : Nat) (a b : α) (hn : (l.map f).Nodup)
+    (hi : l[i]? = some a) (hj : l[j]? = some b) (e : f a = f b) : i = j := by
+  have h1 := findIdx?_of_nodup f l i a hn hi
+  have h2 := findIdx?_of_nodup f l j b hn hj
+  rw [e] at h1
+  rw [h1] at h2
+  exact Option.some.inj h2
 
 /-- the node finds the requester's tip: `done` headers are known, the rest is what it sends -/
 theorem startOf_tip (hashOf : Src H → H) (n : Node H) (done rest : List (Src H)) (tipHash : H) (more : List H)
@@ -397,25 +424,23 @@ theorem lookup_update {ps : List (PeerSt H)} {p : Nat} {q q' : PeerSt H} (h : lo
       simp only [h1, Bool.false_eq_true, if_false, hc]
       exact ih h
 
-/-- the request goes out when the duplicate filter holds another begin hash -/
-theorem pushGetHeaders_fresh (q : PeerSt H) (loc : List H) (stop : H) (b : H) (hb : q.prevBegin = some b)
-    (hne : loc.head? ≠ some b) (hd : q.disc = false) :
+/-- the request goes out when the duplicate filter holds another begin hash (or nothing) -/
+theorem pushGetHeaders_fresh (q : PeerSt H) (loc : List H) (stop : H) (hne : q.prevBegin ≠ loc.head?) (hd : q.disc = false) :
     pushGetHeaders q loc stop =
       ({ q with prevBegin := loc.head?, prevStop := some stop }, [Action.getheaders q.id loc stop]) := by
   unfold pushGetHeaders
-  have : decide (q.prevBegin = loc.head?) = false := by
-    rw [hb]; simp; intro e; exact hne e.symm
+  have : decide (q.prevBegin = loc.head?) = false := by simp [hne]
   simp [this, hd]
 
-theorem pushTo_fresh (st : State H) (p : Nat) (q : PeerSt H) (loc : List H) (stop : H) (b : H)
-    (hq : lookup st.peers p = some q) (hb : q.prevBegin = some b) (hne : loc.head? ≠ some b) (hd : q.disc = false) :
+theorem pushTo_fresh (st : State H) (p : Nat) (q : PeerSt H) (loc : List H) (stop : H)
+    (hq : lookup st.peers p = some q) (hne : q.prevBegin ≠ loc.head?) (hd : q.disc = false) :
     pushTo st p loc stop =
       ({ st with peers := update st.peers { q with prevBegin := loc.head?, prevStop := some stop } },
         [Action.getheaders p loc stop]) := by
   obtain ⟨_, hid⟩ := lookup_mem hq
   unfold pushTo
   rw [hq]
-  simp only [pushGetHeaders_fresh q loc stop b hb hne hd, hid]
+  simp only [pushGetHeaders_fresh q loc stop hne hd, hid]
 
 theorem getElem?_of_split {α : Type} (done rest pre post : List α) (x : α) (h : done ++ rest = pre ++ x :: post)
     (hle : done.length ≤ pre.length) : rest[pre.length - done.length]? = some x := by
@@ -463,11 +488,11 @@ theorem batch_cp (hashOf : Src H → H) (C done rest : List (Src H)) (hsplit : C
     rw [this]; exact hx
 
 /-- handleHeadersMsg after a completely processed batch that brought a longest-chain header -/
-theorem handleHeaders_completed (cfg : Cfg H) (st : State H) (p : Nat) (q : PeerSt H) (hs : List (Src H)) (s' : Store H)
+theorem handleHeadersCore_completed (cfg : Cfg H) (st : State H) (p : Nat) (q : PeerSt H) (hs : List (Src H)) (s' : Store H)
     (rc : Bool) (fh : H) (hq : lookup st.peers p = some q) (hin : q.inMap = true) (hf : st.headersFirst = true)
     (hne : hs.isEmpty = false)
     (hl : headersLoop cfg.chain st.nextCp st.store hs false none = (s', rc, some fh, .completed)) :
-    handleHeaders cfg st p hs =
+    handleHeadersCore cfg st p hs =
       if rc = true then
         match st.nextCp with
         | none => ({ st with store := s' }, [.panic])
@@ -479,7 +504,7 @@ theorem handleHeaders_completed (cfg : Cfg H) (st : State H) (p : Nat) (q : Peer
         match st.nextCp with
         | none => pushTo { st with store := s' } p (locator s') cfg.zero
         | some c => pushTo { st with store := s' } p (locator s') c.2 := by
-  unfold handleHeaders
+  unfold handleHeadersCore
   rw [hq]
   simp only [hin, hf, hne, hl, Bool.not_true, Bool.false_eq_true, if_false]
   cases rc <;> cases st.nextCp <;> rfl
@@ -496,6 +521,7 @@ structure LinSetup (cfg : Cfg H) (g : Row H) (C : List (Src H)) (n : Node H) : P
   nodup : (g.hash :: C.map cfg.chain.hashOf).Nodup
   clean : ∀ x ∈ C, cfg.chain.hashOf x ∉ cfg.chain.forbidden
   work : ∀ x ∈ C, work x.bits ≠ 0
+  zeroFresh : cfg.zero ∉ C.map cfg.chain.hashOf     -- the all-zero hash is nobody's hash
   asc : Asc cfg.checkpoints
   consistent : ∀ c ∈ cfg.checkpoints, ∃ pre x post, C = pre ++ x :: post ∧ pre.length + 1 = c.1 ∧ cfg.chain.hashOf x = c.2
 
@@ -537,9 +563,9 @@ theorem lastHash_getElem (hashOf : Src H → H) (h : H) (B : List (Src H)) (hB :
 
 /-- the end of a round: the request that goes out and the invariant it re-establishes -/
 theorem lin_round_finish {cfg : Cfg H} {g : Row H} {C : List (Src H)} {p : Nat} {st : State H}
-    {doneB rest' : List (Src H)} {t t' : Row H} {q : PeerSt H} {s' : Store H}
-    (hq : lookup st.peers p = some q) (hin : q.inMap = true) (hdisc : q.disc = false) (hprev : q.prevBegin = some t.hash)
-    (hneq : t'.hash ≠ t.hash) (gtop : Top s' t') (ht'h : t'.height = doneB.length)
+    {doneB rest' : List (Src H)} {t' : Row H} {q : PeerSt H} {s' : Store H}
+    (hq : lookup st.peers p = some q) (hin : q.inMap = true) (hdisc : q.disc = false)
+    (hprev : q.prevBegin ≠ some t'.hash) (gtop : Top s' t') (ht'h : t'.height = doneB.length)
     (ht'hash : t'.hash = lastHash cfg.chain.hashOf g.hash doneB)
     (gmap : s'.map (·.hash) = g.hash :: doneB.map cfg.chain.hashOf) (hsplit : C = doneB ++ rest')
     (hf : st.headersFirst = true) (nc' : Option (Nat × H)) (loc' : List H)
@@ -548,9 +574,8 @@ theorem lin_round_finish {cfg : Cfg H} {g : Row H} {C : List (Src H)} {p : Nat} 
         [Action.getheaders p loc' (stopOf cfg nc')] ∧
       LinInv cfg g C p (pushTo { st with store := s', nextCp := nc' } p loc' (stopOf cfg nc')).1 doneB rest'
         (loc', stopOf cfg nc') := by
-  have hne : loc'.head? ≠ some t.hash := by
-    rw [hhead']; intro e; exact hneq (Option.some.inj e)
-  have hpush := pushTo_fresh { st with store := s', nextCp := nc' } p q loc' (stopOf cfg nc') t.hash hq hprev hne hdisc
+  have hne : q.prevBegin ≠ loc'.head? := by rw [hhead']; exact hprev
+  have hpush := pushTo_fresh { st with store := s', nextCp := nc' } p q loc' (stopOf cfg nc') hq hne hdisc
   rw [hpush]
   refine ⟨rfl, ⟨hsplit, hf, hnc', rfl, ?_⟩⟩
   refine ⟨t', { q with prevBegin := loc'.head?, prevStop := some (stopOf cfg nc') }, gtop, ht'h, ht'hash, gmap, ?_, hin, hdisc,
@@ -563,7 +588,9 @@ theorem lin_round_finish {cfg : Cfg H} {g : Row H} {C : List (Src H)} {p : Nat} 
 theorem lin_round {cfg : Cfg H} {g : Row H} {C : List (Src H)} {n : Node H} {p : Nat} {st : State H}
     {done rest : List (Src H)} {req : List H × H} (hs : LinSetup cfg g C n) (hi : LinInv cfg g C p st done rest req)
     (hne : rest ≠ []) :
-    ∃ B rest' req', rest = B ++ rest' ∧ B ≠ [] ∧ B.length ≤ n.cap ∧ reply cfg.chain.hashOf n req.1 req.2 = B ∧
+    ∃ B rest' req', rest = B ++ rest' ∧ B ≠ [] ∧ B.length ≤ n.cap ∧
+      (B.length = n.cap ∨ rest' = [] ∨ ∃ c, st.nextCp = some c ∧ (done ++ B).length = c.1) ∧
+      reply cfg.chain.hashOf n req.1 req.2 = B ∧
       (handleHeaders cfg st p B).2 = [Action.getheaders p req'.1 req'.2] ∧
       LinInv cfg g C p (handleHeaders cfg st p B).1 (done ++ B) rest' req' := by
   obtain ⟨t, q, htop, hth, hthash, hmap, hq, hin, hdisc, hprev, hhead⟩ := hi.core
@@ -608,6 +635,47 @@ theorem lin_round {cfg : Cfg H} {g : Row H} {C : List (Src H)} {n : Node H} {p :
   have hCsplit : C = done ++ B ++ (R1 ++ R2) := by rw [hsplit, hrest, List.append_assoc]
   have hBsub : ∀ x ∈ B, x ∈ C := by
     intro x hx; rw [hCsplit]; exact List.mem_append_left _ (List.mem_append_right _ hx)
+  -- why the batch is as long as it is: a full reply, or everything that was missing, or it ends on the checkpoint
+  have hprog : B.length = n.cap ∨ (R1 ++ R2) = [] ∨ ∃ c, st.nextCp = some c ∧ (done ++ B).length = c.1 := by
+    rcases cutAtStop_cases cfg.chain.hashOf req.2 (rest.take n.cap) with e | ⟨y, hy, hyh⟩
+    · rw [hB] at e
+      by_cases hle : n.cap ≤ rest.length
+      · left; rw [e, List.length_take]; omega
+      · right; left
+        have htk : rest.take n.cap = rest := List.take_of_length_le (by omega)
+        have hlen : rest.length = B.length + (R1 ++ R2).length := by
+          conv => lhs; rw [hrest]
+          rw [List.length_append]
+        have : B.length = rest.length := by rw [e, htk]
+        exact List.length_eq_zero_iff.1 (by omega)
+    · rw [hB] at hy
+      right; right
+      have hpos : 0 < B.length := List.length_pos_iff.2 hBne
+      have hyB : B[B.length - 1]? = some y := by rw [← List.getLast?_eq_getElem?]; exact hy
+      have hyC : C[done.length + (B.length - 1)]? = some y := by
+        rw [hCsplit, List.append_assoc, List.getElem?_append_right (by omega)]
+        simp only [Nat.add_sub_cancel_left]
+        rw [List.getElem?_append_left (by omega)]
+        exact hyB
+      cases hnc : st.nextCp with
+      | none =>
+        exfalso
+        have hz : req.2 = cfg.zero := by rw [hi.stop, hnc]; rfl
+        apply hs.zeroFresh
+        rw [← hz, ← hyh]
+        exact List.mem_map.2 ⟨y, List.mem_of_getElem? hyC, rfl⟩
+      | some c =>
+        refine ⟨c, rfl, ?_⟩
+        have hcur := hi.cursor
+        rw [hnc] at hcur
+        obtain ⟨_, hfn⟩ := cursorOf_some hcur.symm
+        obtain ⟨hcm, _, _⟩ := (findNext_spec cfg.checkpoints hs.asc done.length).1 c hfn
+        obtain ⟨pre, x, post, hC, hlen, hx⟩ := hs.consistent c hcm
+        have hxC : C[pre.length]? = some x := by rw [hC]; simp
+        have hstop : req.2 = c.2 := by rw [hi.stop, hnc]; rfl
+        have hnd : (C.map cfg.chain.hashOf).Nodup := (List.nodup_cons.1 hs.nodup).2
+        have := index_unique cfg.chain.hashOf C _ _ y x hnd hyC hxC (by rw [hyh, hstop, hx])
+        rw [List.length_append]; omega
   -- hypotheses of the batch lemma
   have hlinkB : Linked cfg.chain.hashOf t.hash B := by
     rw [hthash]
@@ -669,7 +737,17 @@ theorem lin_round {cfg : Cfg H} {g : Row H} {C : List (Src H)} {n : Node H} {p :
   have hhead_loc : (locator (headersLoop cfg.chain st.nextCp st.store B false none).1).head? = some t'.hash := by
     obtain ⟨r', hr'⟩ := locator_head gtop.getTip
     rw [hr']; rfl
-  have hh := handleHeaders_completed cfg st p q B _ _ t'.hash hq hin hi.hf hBemp hl
+  -- the inHandler's part (F4b switch), then the manager's
+  have hq1 : lookup (onHeadersReceived st.peers p) p = some (headersSeen q) := lookup_onHeadersReceived hq
+  have hin1 : (headersSeen q).inMap = true := by rw [headersSeen_inMap]; exact hin
+  have hdisc1 : (headersSeen q).disc = false := by rw [headersSeen_disc]; exact hdisc
+  have hprev1 : (headersSeen q).prevBegin ≠ some t'.hash := by
+    rcases headersSeen_prevBegin q with e | e
+    · rw [e, hprev]; intro e'; exact hnew (Option.some.inj e').symm
+    · rw [e]; intro e'; cases e'
+  have hwrap : handleHeaders cfg st p B = handleHeadersCore cfg { st with peers := onHeadersReceived st.peers p } p B := rfl
+  have hh := handleHeadersCore_completed cfg { st with peers := onHeadersReceived st.peers p } p (headersSeen q) B _ _ t'.hash
+    hq1 hin1 hi.hf hBemp hl
   refine ⟨B, R1 ++ R2, ?_⟩
   by_cases hrc : (headersLoop cfg.chain st.nextCp st.store B false none).2.1 = true
   · -- the batch ended on the checkpoint
@@ -691,23 +769,23 @@ theorem lin_round {cfg : Cfg H} {g : Row H} {C : List (Src H)} {n : Node H} {p :
       simp only [] at hh
       have hnc' : some c' = cursorOf cfg (done ++ B).length := by
         unfold cursorOf; rw [hen, hlen, hfn']; rfl
-      have := lin_round_finish (cfg := cfg) (g := g) (C := C) (st := st) hq hin hdisc hprev hnew gtop ht'h ht'hash gmap'
+      have := lin_round_finish (cfg := cfg) (g := g) (C := C) (st := { st with peers := onHeadersReceived st.peers p }) hq1 hin1 hdisc1 hprev1 gtop ht'h ht'hash gmap'
         hCsplit' hi.hf (some c') [c.2] hnc' (by rw [hc2]; rfl)
       rw [hc] at this
-      refine ⟨([c.2], c'.2), hrest, hBne, hBcap, hreply, ?_, ?_⟩
-      · rw [hh]; exact this.1
-      · rw [hh]; exact this.2
+      refine ⟨([c.2], c'.2), hrest, hBne, hBcap, hprog, hreply, ?_, ?_⟩
+      · rw [hwrap, hc, hh]; exact this.1
+      · rw [hwrap, hc, hh]; exact this.2
     | none =>
       rw [hfn'] at hh
       simp only [] at hh
       have hnc' : none = cursorOf cfg (done ++ B).length := by
         unfold cursorOf; rw [hen, hlen, hfn']; rfl
-      have := lin_round_finish (cfg := cfg) (g := g) (C := C) (st := st) hq hin hdisc hprev hnew gtop ht'h ht'hash gmap'
+      have := lin_round_finish (cfg := cfg) (g := g) (C := C) (st := { st with peers := onHeadersReceived st.peers p }) hq1 hin1 hdisc1 hprev1 gtop ht'h ht'hash gmap'
         hCsplit' hi.hf none (locator (headersLoop cfg.chain st.nextCp st.store B false none).1) hnc' hhead_loc
       rw [hc] at this
-      refine ⟨(locator (headersLoop cfg.chain (some c) st.store B false none).1, cfg.zero), hrest, hBne, hBcap, hreply, ?_, ?_⟩
-      · rw [hh]; exact this.1
-      · rw [hh]; exact this.2
+      refine ⟨(locator (headersLoop cfg.chain (some c) st.store B false none).1, cfg.zero), hrest, hBne, hBcap, hprog, hreply, ?_, ?_⟩
+      · rw [hwrap, hc, hh]; exact this.1
+      · rw [hwrap, hc, hh]; exact this.2
   · -- the cursor stays
     rw [if_neg hrc] at hh
     have hnot : ¬ (B ≠ [] ∧ ∃ c, st.nextCp = some c ∧ t.height + B.length = c.1) := fun h => hrc (grc.2 (Or.inr h))
@@ -726,16 +804,16 @@ theorem lin_round {cfg : Cfg H} {g : Row H} {C : List (Src H)} {n : Node H} {p :
           simp only [Bool.false_eq_true, if_false] at hcur ⊢
           exact (findNext_none_mono cfg.checkpoints hs.asc done.length _ hcur.symm
             (by rw [List.length_append]; omega)).symm
-      have hst : ({ st with store := (headersLoop cfg.chain st.nextCp st.store B false none).1 } : State H) =
-          { st with store := (headersLoop cfg.chain st.nextCp st.store B false none).1, nextCp := none } := by
+      have hst : ({ ({ st with peers := onHeadersReceived st.peers p } : State H) with store := (headersLoop cfg.chain st.nextCp st.store B false none).1 } : State H) =
+          { ({ st with peers := onHeadersReceived st.peers p } : State H) with store := (headersLoop cfg.chain st.nextCp st.store B false none).1, nextCp := none } := by
         cases st; simp only [] at hnc; subst hnc; rfl
       rw [hnc] at hst
-      have := lin_round_finish (cfg := cfg) (g := g) (C := C) (st := st) hq hin hdisc hprev hnew gtop ht'h ht'hash gmap'
+      have := lin_round_finish (cfg := cfg) (g := g) (C := C) (st := { st with peers := onHeadersReceived st.peers p }) hq1 hin1 hdisc1 hprev1 gtop ht'h ht'hash gmap'
         hCsplit' hi.hf none (locator (headersLoop cfg.chain st.nextCp st.store B false none).1) hnc' hhead_loc
       rw [hnc] at this
-      refine ⟨(locator (headersLoop cfg.chain none st.store B false none).1, cfg.zero), hrest, hBne, hBcap, hreply, ?_, ?_⟩
-      · rw [hh, hst]; exact this.1
-      · rw [hh, hst]; exact this.2
+      refine ⟨(locator (headersLoop cfg.chain none st.store B false none).1, cfg.zero), hrest, hBne, hBcap, (by rw [← hnc]; exact hprog), hreply, ?_, ?_⟩
+      · rw [hwrap, hnc, hh, hst]; exact this.1
+      · rw [hwrap, hnc, hh, hst]; exact this.2
     | some c =>
       rw [hnc] at hh
       simp only [] at hh
@@ -751,16 +829,16 @@ theorem lin_round {cfg : Cfg H} {g : Row H} {C : List (Src H)} {n : Node H} {p :
         rw [hen]
         simp only [Bool.false_eq_true, if_false]
         exact (findNext_stable cfg.checkpoints hs.asc done.length _ c hfn (by rw [List.length_append]; omega) hklt).symm
-      have hst : ({ st with store := (headersLoop cfg.chain st.nextCp st.store B false none).1 } : State H) =
-          { st with store := (headersLoop cfg.chain st.nextCp st.store B false none).1, nextCp := some c } := by
+      have hst : ({ ({ st with peers := onHeadersReceived st.peers p } : State H) with store := (headersLoop cfg.chain st.nextCp st.store B false none).1 } : State H) =
+          { ({ st with peers := onHeadersReceived st.peers p } : State H) with store := (headersLoop cfg.chain st.nextCp st.store B false none).1, nextCp := some c } := by
         cases st; simp only [] at hnc; subst hnc; rfl
       rw [hnc] at hst
-      have := lin_round_finish (cfg := cfg) (g := g) (C := C) (st := st) hq hin hdisc hprev hnew gtop ht'h ht'hash gmap'
+      have := lin_round_finish (cfg := cfg) (g := g) (C := C) (st := { st with peers := onHeadersReceived st.peers p }) hq1 hin1 hdisc1 hprev1 gtop ht'h ht'hash gmap'
         hCsplit' hi.hf (some c) (locator (headersLoop cfg.chain st.nextCp st.store B false none).1) hnc' hhead_loc
       rw [hnc] at this
-      refine ⟨(locator (headersLoop cfg.chain (some c) st.store B false none).1, c.2), hrest, hBne, hBcap, hreply, ?_, ?_⟩
-      · rw [hh, hst]; exact this.1
-      · rw [hh, hst]; exact this.2
+      refine ⟨(locator (headersLoop cfg.chain (some c) st.store B false none).1, c.2), hrest, hBne, hBcap, (by rw [← hnc]; exact hprog), hreply, ?_, ?_⟩
+      · rw [hwrap, hnc, hh, hst]; exact this.1
+      · rw [hwrap, hnc, hh, hst]; exact this.2
 
 /-! ### the closed loop terminates on the node's chain -/
 
@@ -770,7 +848,8 @@ theorem rounds_none (cfg : Cfg H) (n : Node H) (p : Nat) (k : Nat) (st : State H
 
 theorem lin_final {cfg : Cfg H} {g : Row H} {C : List (Src H)} {n : Node H} {p : Nat} {st : State H}
     {done : List (Src H)} {req : List H × H} (hs : LinSetup cfg g C n) (hi : LinInv cfg g C p st done [] req) :
-    reply cfg.chain.hashOf n req.1 req.2 = [] ∧ handleHeaders cfg st p [] = (st, []) := by
+    reply cfg.chain.hashOf n req.1 req.2 = [] ∧ (handleHeaders cfg st p []).2 = [] ∧
+      (handleHeaders cfg st p []).1.store = st.store := by
   obtain ⟨t, q, htop, hth, hthash, hmap, hq, hin, hdisc, hprev, hhead⟩ := hi.core
   obtain ⟨more, hloc⟩ : ∃ more, req.1 = t.hash :: more := by
     cases hr : req.1 with
@@ -786,9 +865,10 @@ theorem lin_final {cfg : Cfg H} {g : Row H} {C : List (Src H)} {n : Node H} {p :
   · unfold reply
     rw [hloc, hstart, hs.chain, hi.split, List.drop_left, List.take_nil]
     rfl
-  · unfold handleHeaders
-    rw [hq]
-    simp [hin, hi.hf]
+  · have hq1 : lookup (onHeadersReceived st.peers p) p = some (headersSeen q) := lookup_onHeadersReceived hq
+    unfold handleHeaders handleHeadersCore
+    simp only [hq1]
+    simp [headersSeen_inMap, hin, hi.hf]
 
 /-- what "synced" means: the table is exactly the node's chain on top of genesis, its last header is the tip -/
 def SyncedTo (ccfg : Chain.Cfg H) (g : Row H) (C : List (Src H)) (s : Store H) : Prop :=
@@ -806,14 +886,15 @@ theorem lin_rounds {cfg : Cfg H} {g : Row H} {C : List (Src H)} {n : Node H} {p 
     intro st done rest req hm hi
     by_cases hne : rest = []
     · subst hne
-      obtain ⟨hr, hh⟩ := lin_final hs hi
-      refine ⟨1, st, by simp, ?_, ?_⟩
+      obtain ⟨hr, hh, hst⟩ := lin_final hs hi
+      refine ⟨1, (handleHeaders cfg st p []).1, by simp, ?_, ?_⟩
       · show rounds cfg n p 0 _ = _
         rw [hr, hh]; rfl
       · obtain ⟨t, q, htop, hth, hthash, hmap, _⟩ := hi.core
         have hC : C = done := by rw [hi.split, List.append_nil]
+        rw [hst]
         refine ⟨by rw [hmap, hC], t, htop.getTip, by rw [hthash, hC], by rw [hth, hC], htop.lc⟩
-    · obtain ⟨B, rest', req', hrest, hBne, _, hreply, hact, hinv'⟩ := lin_round hs hi hne
+    · obtain ⟨B, rest', req', hrest, hBne, _, _, hreply, hact, hinv'⟩ := lin_round hs hi hne
       have hlt : rest'.length < m := by
         rw [← hm, hrest, List.length_append]
         have := List.length_pos_iff.2 hBne
@@ -938,5 +1019,153 @@ theorem lin_start {cfg : Cfg H} {g : Row H} {C : List (Src H)} {n : Node H} (hs 
         simp [hc]
     refine ⟨(t0.hash :: more, cfg.zero), rfl, ⟨hsplit, hhf, hc.symm, rfl, ?_⟩⟩
     exact ⟨t0, asked (freshPeer p (C.length : Int)) (t0.hash :: more).head? cfg.zero, htop, hth, hthash, hmap, by simp [lookup, freshPeer, asked], rfl, rfl, rfl, rfl⟩
+
+/-! ### how many rounds: ⌈missing / cap⌉ + (checkpoints still above) + 1 -/
+
+theorem filter_length_le_of_imp {α : Type} (p q : α → Bool) : ∀ l : List α, (∀ a ∈ l, p a = true → q a = true) →
+    (l.filter p).length ≤ (l.filter q).length := by
+  intro l
+  induction l with
+  | nil => intro _; exact Nat.le_refl _
+  | cons x xs ih =>
+    intro h
+    have ih' := ih (fun a ha => h a (List.mem_cons_of_mem _ ha))
+    cases hp : p x with
+    | false =>
+      rw [List.filter_cons_of_neg (by simp [hp])]
+      cases hq : q x with
+      | false => rw [List.filter_cons_of_neg (by simp [hq])]; exact ih'
+      | true => rw [List.filter_cons_of_pos hq]; simp only [List.length_cons]; omega
+    | true =>
+      have hq := h x List.mem_cons_self hp
+      rw [List.filter_cons_of_pos hp, List.filter_cons_of_pos hq]
+      simp only [List.length_cons]; omega
+
+theorem filter_length_lt_of_imp {α : Type} (p q : α → Bool) : ∀ l : List α, (∀ a ∈ l, p a = true → q a = true) →
+    ∀ c ∈ l, q c = true → p c = false → (l.filter p).length < (l.filter q).length := by
+  intro l
+  induction l with
+  | nil => intro _ c hc; cases hc
+  | cons x xs ih =>
+    intro h c hc hqc hpc
+    have hle := filter_length_le_of_imp p q xs (fun a ha => h a (List.mem_cons_of_mem _ ha))
+    rcases List.mem_cons.1 hc with e | hm
+    · subst e
+      rw [List.filter_cons_of_neg (by simp [hpc]), List.filter_cons_of_pos hqc]
+      simp only [List.length_cons]; omega
+    · have ih' := ih (fun a ha => h a (List.mem_cons_of_mem _ ha)) c hm hqc hpc
+      cases hp : p x with
+      | false =>
+        rw [List.filter_cons_of_neg (by simp [hp])]
+        cases hq : q x with
+        | false => rw [List.filter_cons_of_neg (by simp [hq])]; exact ih'
+        | true => rw [List.filter_cons_of_pos hq]; simp only [List.length_cons]; omega
+      | true =>
+        have hq := h x List.mem_cons_self hp
+        rw [List.filter_cons_of_pos hp, List.filter_cons_of_pos hq]
+        simp only [List.length_cons]; omega
+
+/-- checkpoints sync still has to pass -/
+def cpAbove (cfg : Cfg H) (k : Nat) : Nat :=
+  if cfg.disableCp then 0 else (cfg.checkpoints.filter (fun c => decide (k < c.1))).length
+
+theorem cpAbove_mono (cfg : Cfg H) {k k' : Nat} (h : k ≤ k') : cpAbove cfg k' ≤ cpAbove cfg k := by
+  unfold cpAbove
+  split
+  · exact Nat.le_refl _
+  · apply filter_length_le_of_imp
+    intro a _ ha
+    simp only [decide_eq_true_eq] at ha ⊢
+    omega
+
+theorem cpAbove_lt (cfg : Cfg H) {k k' : Nat} (c : Nat × H) (hen : cfg.disableCp = false) (hc : c ∈ cfg.checkpoints)
+    (h1 : k < c.1) (h2 : c.1 ≤ k') : cpAbove cfg k' < cpAbove cfg k := by
+  unfold cpAbove
+  rw [hen]
+  simp only [Bool.false_eq_true, if_false]
+  apply filter_length_lt_of_imp _ _ _ _ c hc
+  · simp only [decide_eq_true_eq]; exact h1
+  · simp only [decide_eq_false_iff_not]; omega
+  · intro a _ ha
+    simp only [decide_eq_true_eq] at ha ⊢
+    omega
+
+theorem cpAbove_le (cfg : Cfg H) (k : Nat) : cpAbove cfg k ≤ cfg.checkpoints.length := by
+  unfold cpAbove
+  split
+  · exact Nat.zero_le _
+  · exact List.length_filter_le _ _
+
+/-- the measure that every round decreases -/
+def potential (cfg : Cfg H) (cap missing k : Nat) : Nat := (missing + cap - 1) / cap + cpAbove cfg k
+
+/-- from any point of a linear catch-up the loop becomes quiescent within
+    ⌈missing / cap⌉ + (checkpoints above the tip) + 1 rounds, synced -/
+theorem lin_rounds_tight {cfg : Cfg H} {g : Row H} {C : List (Src H)} {n : Node H} {p : Nat} (hs : LinSetup cfg g C n) :
+    ∀ (m : Nat) (st : State H) (done rest : List (Src H)) (req : List H × H),
+      potential cfg n.cap rest.length done.length = m → LinInv cfg g C p st done rest req →
+      ∃ k st', k ≤ m + 1 ∧ rounds cfg n p k (st, some req) = (st', none) ∧ SyncedTo cfg.chain g C st'.store := by
+  intro m
+  induction m using Nat.strongRecOn with
+  | _ m ih =>
+    intro st done rest req hm hi
+    by_cases hne : rest = []
+    · subst hne
+      obtain ⟨hr, hh, hst⟩ := lin_final hs hi
+      refine ⟨1, (handleHeaders cfg st p []).1, by omega, ?_, ?_⟩
+      · show rounds cfg n p 0 _ = _
+        rw [hr, hh]; rfl
+      · obtain ⟨t, q, htop, hth, hthash, hmap, _⟩ := hi.core
+        have hC : C = done := by rw [hi.split, List.append_nil]
+        rw [hst]
+        refine ⟨by rw [hmap, hC], t, htop.getTip, by rw [hthash, hC], by rw [hth, hC], htop.lc⟩
+    · obtain ⟨B, rest', req', hrest, hBne, hBcap, hprog, hreply, hact, hinv'⟩ := lin_round hs hi hne
+      have hcap := hs.cap
+      have hBpos : 0 < B.length := List.length_pos_iff.2 hBne
+      have hlen : rest.length = B.length + rest'.length := by rw [hrest, List.length_append]
+      have hk' : (done ++ B).length = done.length + B.length := List.length_append
+      have hmono := cpAbove_mono cfg (k := done.length) (k' := (done ++ B).length) (by omega)
+      have hdec : potential cfg n.cap rest'.length (done ++ B).length < m := by
+        rw [← hm]
+        unfold potential
+        rcases hprog with hfull | hend | ⟨c, hc, hkc⟩
+        · -- a full reply
+          have : (rest.length + n.cap - 1) / n.cap = (rest'.length + n.cap - 1) / n.cap + 1 := by
+            rw [hlen, hfull]
+            have : n.cap + rest'.length + n.cap - 1 = (rest'.length + n.cap - 1) + n.cap := by omega
+            rw [this, Nat.add_div_right _ (by omega)]
+          omega
+        · -- everything that was missing
+          rw [hend]
+          have h0 : (([] : List (Src H)).length + n.cap - 1) / n.cap = 0 := by
+            simp only [List.length_nil, Nat.zero_add]
+            exact Nat.div_eq_of_lt (by omega)
+          have h1 : 1 ≤ (rest.length + n.cap - 1) / n.cap := by
+            apply (Nat.le_div_iff_mul_le (by omega)).2
+            omega
+          omega
+        · -- the batch ends on the checkpoint
+          have hcur := hi.cursor
+          rw [hc] at hcur
+          obtain ⟨hen, hfn⟩ := cursorOf_some hcur.symm
+          obtain ⟨hcm, hck, _⟩ := (findNext_spec cfg.checkpoints hs.asc done.length).1 c hfn
+          have hlt := cpAbove_lt cfg (k := done.length) (k' := (done ++ B).length) c hen hcm hck (by omega)
+          have hle : (rest'.length + n.cap - 1) / n.cap ≤ (rest.length + n.cap - 1) / n.cap :=
+            Nat.div_le_div_right (by omega)
+          omega
+      obtain ⟨k, st', hk, hrounds, hsync⟩ := ih _ hdec _ _ _ _ rfl hinv'
+      refine ⟨k + 1, st', by omega, ?_, hsync⟩
+      show rounds cfg n p k _ = _
+      rw [hreply, hact]
+      have : requestTo p [Action.getheaders p req'.1 req'.2] = some req' := by
+        unfold requestTo; simp
+      rw [this]
+      exact hrounds
+
+theorem potential_le (cfg : Cfg H) (cap missing k : Nat) :
+    potential cfg cap missing k ≤ (missing + cap - 1) / cap + cfg.checkpoints.length := by
+  unfold potential
+  have := cpAbove_le cfg k
+  omega
 
 end BHS.Sync
